@@ -16,13 +16,13 @@ place() { # copy demo into place, echo the go test command dir
   fi
 }
 rundemo() { d=$(place) || { echo "place failed $d"; return 2; }
-  if [ "$d" = MAIN ]; then timeout 600 go run ./zzdemo >/tmp/demo.out 2>&1; rc=$?; rm -rf zzdemo
-  else timeout 600 go test -vet=off -count=1 -run "Demo|C1[0-9]|C0[0-9]" "./$d/" >/tmp/demo.out 2>&1; rc=$?; rm -f "$d/zz_demo_test.go"; fi
+  if [ "$d" = MAIN ]; then timeout 600 go run ./zzdemo >$W/demo.out 2>&1; rc=$?; rm -rf zzdemo
+  else timeout 600 go test -vet=off -count=1 -run "Demo|C1[0-9]|C0[0-9]" "./$d/" >$W/demo.out 2>&1; rc=$?; rm -f "$d/zz_demo_test.go"; fi
   return $rc; }
 rundemo; base=$?
-git apply --check "$O/patch.diff" 2>/tmp/apply.err || { res "PATCH-DOES-NOT-APPLY $(head -2 /tmp/apply.err)"; exit 1; }
+git apply --check "$O/patch.diff" 2>$W/apply.err || { res "PATCH-DOES-NOT-APPLY $(head -2 $W/apply.err)"; exit 1; }
 git apply "$O/patch.diff"
-go build ./... >/tmp/build.out 2>&1 || { res "BUILD-FAILS"; exit 1; }
-timeout 900 go test -vet=off -count=1 ./... >/tmp/suite.out 2>&1; suite=$?
+go build ./... >$W/build.out 2>&1 || { res "BUILD-FAILS"; exit 1; }
+timeout 900 go test -vet=off -count=1 ./... >$W/suite.out 2>&1; suite=$?
 rundemo; mut=$?
 res "baseline_demo_rc=$base suite_rc_with_patch=$suite demo_rc_with_patch=$mut  => $([ $base = 0 ] && [ $suite = 0 ] && [ $mut != 0 ] && echo CONFIRMED || echo NOT-CONFIRMED)"
